@@ -60,7 +60,7 @@ def cells(tier, seed):
         rng.shuffle(order)
         out.append({"D": D, "sig": si, "order": order, "shape": rng.choice(SHAPES[D]), "lead": rng.choice([(), (5,), (5, 7)]),
                     "chain": [rng.choice(TRIPS) for _ in range(rng.choice([2, 3]))]})
-    for mc in SAVELOAD_MODELS if tier == "thorough" else SAVELOAD_MODELS[:3]:
+    for mc in (SAVELOAD_MODELS if tier == "thorough" else SAVELOAD_MODELS[:3]) + SAVELOAD_WRAPPED:
         out.append({"kind": "saveload", "model": mc})
     return out
 
@@ -73,6 +73,8 @@ SAVELOAD_MODELS = [
     {"cls": "resnet", "D": 3, "sig": 0, "equiv": False, "depth": 2},
     {"cls": "block", "D": 2, "sig": 3, "equiv": True, "bias": "mean"},
 ]
+# wrapped in models.GroupAverage (python-scalar leaves `inference` / `always_average`, switched by eqx.nn.inference_mode before saving)
+SAVELOAD_WRAPPED = [{"cls": "resnet", "D": 2, "sig": 0, "equiv": False, "depth": 1, "wrap": "groupaverage"}]
 
 
 def exhaustive(tier):
@@ -92,9 +94,18 @@ def _saveload(cfg, cx):
     mc = cfg["model"]
     ckey = ":".join(f"{a}={mc[a]}" for a in sorted(mc))
 
+    def build(seed):
+        import ginjax.models as models
+        m, in_sig, out_sig, _ = C20._build(dict({a: b for a, b in mc.items() if a != "wrap"}, seed=seed))
+        if mc.get("wrap") == "groupaverage":
+            m = models.GroupAverage(m, [np.asarray(g) for g in geom.make_all_operators(mc["D"])])
+        return m, in_sig, out_sig
+
     def probe(special):
-        mA, in_sig, out_sig, _ = C20._build(dict(mc, seed=1))
-        mB, _, _, _ = C20._build(dict(mc, seed=2))
+        mA, in_sig, out_sig = build(1)
+        mB, _, _ = build(2)
+        # what a user does before saving a trained model: switch it to inference mode (flips python-bool leaves named `inference`)
+        mA = eqx.nn.inference_mode(mA, True)
         pA, sA = eqx.partition(mA, eqx.is_array)
         leaves, td = jax.tree_util.tree_flatten(pA)
         new, ctr = [], 0
@@ -116,16 +127,24 @@ def _saveload(cfg, cx):
             mL = ml.load(fn, mB)
         finally:
             os.unlink(fn)
-        lL, tdL = jax.tree_util.tree_flatten(eqx.filter(mL, eqx.is_array))
-        lA, tdA = jax.tree_util.tree_flatten(eqx.filter(mA2, eqx.is_array))
+        fl = lambda m: jax.tree_util.tree_flatten_with_path(eqx.filter(m, eqx.is_array))[0]
+        lL, tdL = [v for _, v in fl(mL)], [jax.tree_util.keystr(q) for q, _ in fl(mL)]
+        lA, tdA = [v for _, v in fl(mA2)], [jax.tree_util.keystr(q) for q, _ in fl(mA2)]
         if tdL != tdA or len(lL) != len(lA):
             return False, f"tree structure changed: {len(lA)} leaves saved, {len(lL)} loaded"
         for i, (a, b) in enumerate(zip(lA, lL)):
             a, b = np.asarray(a), np.asarray(b)
             if a.shape != b.shape or a.dtype != b.dtype or a.tobytes() != b.tobytes():
                 return False, f"leaf {i} {a.shape} {a.dtype} differs after save/load (first bytes {a.tobytes()[:8].hex()} vs {b.tobytes()[:8].hex()})"
+        # every other (python scalar) leaf must come back too
+        # (python bool/int/float/complex leaves are what eqx.tree_serialise_leaves stores besides arrays; callables are not leaves it stores)
+        isnum = lambda v: isinstance(v, (bool, int, float, complex))
+        oA = jax.tree_util.tree_leaves(eqx.filter(mA2, isnum))
+        oL = jax.tree_util.tree_leaves(eqx.filter(mL, isnum))
+        if len(oA) != len(oL) or any(type(a) is not type(b) or a != b for a, b in zip(oA, oL)):
+            return False, f"non-array leaves differ after save/load: saved {oA[:8]} loaded {oL[:8]}"
         if special:
-            return True, f"{len(lA)} leaves, {ctr} float32 entries bit-identical"
+            return True, f"{len(lA)} array leaves ({ctr} float32 entries bit-identical), {len(oA)} scalar leaves equal"
         D = mc["D"]
         rng = np.random.default_rng(5)
         N = 4
